@@ -8,8 +8,8 @@ of the field.  (`VERIF_NO_ALIASES=1` switches the rewrite off.)
 Conditions, all syntactic and checked per class:
   F is a buffer field     every plain store `self.F = v` in the class has v = bytearray(...), a slice of self.F, or a slice of a local
                           that is itself an accepted alias of self.F; at least one such store exists
-  X is an alias of F in m `X = self.F` is the only binding of X in method m (augmented `X += e` apart), it is a top-level statement of m
-                          and no use of X precedes it
+  X is an alias of F in m `X = self.F` is the only binding of X in method m (augmented `X += e` apart) and every use of X lies in the
+                          statements that follow it in its own block
   F is not rebound while X is in use
                           no statement of m that rebinds F (a plain store, or a call of a method of the class that rebinds F,
                           transitively) is followed by a use of X, or shares a loop with a use of X; the value of a rebinding store may
@@ -66,14 +66,27 @@ def _alias_candidates(fn, selfname):
     """{local: (field, binding statement)} for `X = self.F` as a top-level statement, the only binding of X (augmented += apart)."""
     out = {}
     params = {a.arg for a in fn.args.args + fn.args.kwonlyargs + fn.args.posonlyargs} | ({fn.args.vararg.arg} if fn.args.vararg else set()) | ({fn.args.kwarg.arg} if fn.args.kwarg else set())
-    for st in fn.body:
-        if isinstance(st, ast.Assign) and len(st.targets) == 1 and isinstance(st.targets[0], ast.Name) and _self_attr(st.value, selfname) and isinstance(st.value.ctx, ast.Load):
-            x = st.targets[0].id
-            if x in params or x in out:
-                out.pop(x, None)
-                params.add(x)  # bound twice at top level: not a candidate
-                continue
-            out[x] = (st.value.attr, st)
+    blocks = [fn.body]
+    for n in _walk_no_nested(fn):
+        for fld in ("body", "orelse", "finalbody"):
+            lst = getattr(n, fld, None)
+            if isinstance(lst, list) and lst and isinstance(lst[0], ast.stmt):
+                blocks.append(lst)
+    scope = {}
+    for blk in blocks:
+        for k, st in enumerate(blk):
+            if isinstance(st, ast.Assign) and len(st.targets) == 1 and isinstance(st.targets[0], ast.Name) and _self_attr(st.value, selfname) and isinstance(st.value.ctx, ast.Load):
+                x = st.targets[0].id
+                if x in params or x in out:
+                    out.pop(x, None)
+                    params.add(x)  # bound twice: not a candidate
+                    continue
+                out[x] = (st.value.attr, st)
+                scope[x] = {id(d) for later in blk[k + 1:] for d in ast.walk(later)}  # where the binding is known to have happened
+    for x in list(out):
+        # every use lies in the statements that follow the binding in its own block (for a top-level binding: the rest of the function)
+        if any(isinstance(n, ast.Name) and n.id == x and n is not out[x][1].targets[0] and id(n) not in scope[x] for n in _walk_no_nested(fn)):
+            del out[x]
     for x in list(out):
         fld, bind = out[x]
         ok = True
